@@ -65,7 +65,7 @@ def add_canaries(asm_hook_files):
             if re.fullmatch(r'<\s*>', generics or ''):
                 generics = ''
             req = ', '.join(c['requires'])
-            name = 'vcanary_%d_%s' % (k, c['name'])
+            name = 'vcanary_%s_%d_%s' % (re.sub(r'\W', '_', relpath[:-3]), k, c['name'])
             k += 1
             fc.add_epilogue('proof fn %s%s(%s) requires %s, ensures false, {}\n' % (name, generics, params, req))
             fc.canaries.append(name)
@@ -162,7 +162,12 @@ def verus_name_matches(vname, c):
     if parts[-1] != c['name']:
         return False
     body = '::'.join(parts[1:-1])   # drop crate name and fn name
-    return body == mod or body.startswith(mod + '::')
+    if body == mod or body.startswith(mod + '::'):
+        return True
+    # trait impls on foreign Self types are named after the Self type's own path (e.g. core::option::Option::from)
+    w = c.get('within') or ''
+    m = re.search(r'\bfor\s+([A-Za-z_]\w*)', w) or re.search(r'\bimpl(?:<[^>]*>)?\s+([A-Za-z_]\w*)', w)
+    return bool(m) and len(parts) >= 2 and parts[-2] == m.group(1)
 
 
 def evaluate(r, prop, known):
@@ -275,6 +280,14 @@ def evaluate(r, prop, known):
             known_hits.append((kf, f))
         else:
             real.append(f)
-    failed_obs = set(f['ob'] for f in failures)
-    discharged = [o for o in obligations if o[0] not in failed_obs]
-    return dict(obligations=obligations, discharged=discharged, failures=real, known=known_hits, undecided=undecided)
+    def key(ob):
+        # function + name of the spec fn of the clause (closure-level and fn-level copies of a clause share it)
+        m = re.match(r'(.*):ensures:\s*([A-Za-z_0-9:]+)\(', ob)
+        return (m.group(1), m.group(2)) if m else (ob, None)
+    failed_keys = set(key(f['ob']) for f in failures)
+    known_keys = set(key(f['ob']) for (k, f) in known_hits)
+    # an obligation suppressed by a known finding is neither counted nor claimed; its signature obligation is
+    known_obs = [o for o in obligations if key(o[0]) in known_keys]
+    obligations = [o for o in obligations if key(o[0]) not in known_keys]
+    discharged = [o for o in obligations if key(o[0]) not in failed_keys]
+    return dict(obligations=obligations, discharged=discharged, failures=real, known=known_hits, undecided=undecided, known_obs=known_obs)
